@@ -271,11 +271,17 @@ func c05Scenario(r *sim.Run) {
 	var proxyReturned atomic.Bool
 	var proxyReturnedAt time.Duration
 	var scriptEnd [2]time.Duration
+	var closedAtReturn [2]bool
+	relayRan := false // the two relay directions were started (not: dial or PROXY header failed)
 	s.Spawn("proxy", func() {
 		Proxy(reg, cliS, logger)
+		// "both connections are closed, the call returns": in that order. What the caller finds at
+		// the instant the call returns (before it closes anything itself):
+		closedAtReturn = [2]bool{cliS.IsClosed(), covS.IsClosed()}
+		relayRan = cliS.Ops("read")+covS.Ops("read")+cliS.Ops("deadline") > 0
 		proxyReturnedAt = r.Elapsed()
 		proxyReturned.Store(true)
-		r.Logf("Proxy returned")
+		r.Logf("Proxy returned (client end closed=%v, covert end closed=%v)", closedAtReturn[0], closedAtReturn[1])
 		// the caller (handleNewConn) closes the client connection
 		cliS.Close()
 	})
@@ -408,7 +414,13 @@ func c05Scenario(r *sim.Run) {
 		return
 	}
 
-	// teardown: both station ends closed
+	// teardown: both station ends were closed when the call returned (each direction closes its
+	// destination itself before it reports completion; only the source closes are asynchronous)
+	if relayRan && (!closedAtReturn[0] || !closedAtReturn[1]) {
+		if r.Fail("C05/returned-before-close", "Proxy returned while a connection was still open: client end closed=%v, covert end closed=%v at the instant of the return", closedAtReturn[0], closedAtReturn[1]) {
+			return
+		}
+	}
 	if !cliS.IsClosed() || !covS.IsClosed() {
 		if r.Fail("C05/not-closed", "after Proxy returned: client end closed=%v covert end closed=%v", cliS.IsClosed(), covS.IsClosed()) {
 			return
